@@ -273,6 +273,9 @@ func genScenario(r *common.RNG) *Scenario {
 		}
 		s.Objs = append(s.Objs, o)
 	}
+	if r.Chance(1, 6) {
+		s.Objs = append(s.Objs, crowd(r, common.Pick(r, subs), 6+r.Intn(9))...)
+	}
 	// the history: events before the trim at offset 0, then possibly more
 	var pre []Event
 	for i, n := 0, r.Intn(6); i < n; i++ {
@@ -321,6 +324,61 @@ func genScenario(r *common.RNG) *Scenario {
 		}
 	}
 	return s
+}
+
+// crowd: one subdirectory full of entry-named objects, most of them stale, a share of them
+// objects that cannot be stat-ed or removed like a file (dangling links, empty and non-empty
+// directories, links).  "Removes EVERY entry unused for longer than ...": no object may shield
+// the entries that the directory listing happens to return after it, whatever the order.
+func crowd(r *common.RNG, sub, n int) []Obj {
+	var out []Obj
+	for i := 0; i < n; i++ {
+		name := fmt.Sprintf("%c%c%02d-%c", 'a'+byte(r.Intn(26)), 'a'+byte(r.Intn(26)), i, "ad"[r.Intn(2)])
+		o := Obj{Sub: sub, Name: hx(name), Kind: "F", Data: fmt.Sprintf("crowd %d", i)}
+		if r.Chance(3, 4) {
+			o.Age = common.Pick(r, []int64{6 * day, 10 * day, fiveDays + hour + sec, 400 * day, fiveDays + 2*hour})
+		} else {
+			o.Age = pickAge(r)
+		}
+		switch r.Intn(8) {
+		case 0, 1:
+			o.Kind = "L"
+		case 2:
+			o.Kind = "E"
+		case 3:
+			o.Kind = "D"
+		case 4:
+			o.Kind = "S"
+		}
+		out = append(out, o)
+	}
+	return out
+}
+
+// crowdScenarios: for each kind of odd object, three of them among ten stale entries of one
+// subdirectory (names spread over the alphabet), then a due trim.
+func crowdScenarios() []*Scenario {
+	var out []*Scenario
+	for ki, kind := range []string{"L", "E", "D", "S"} {
+		for v := 0; v < 3; v++ {
+			var objs []Obj
+			for i := 0; i < 13; i++ {
+				c := byte('a' + (i*7+v*3+ki)%26)
+				o := Obj{Sub: 5 + v, Name: hx(fmt.Sprintf("%c%c%d-%c", c, 'z'-c+'a', i, "ad"[i%2])), Age: 6*day + int64(i)*hour, Kind: "F", Data: "stale"}
+				if i%4 == 1 {
+					o.Kind = kind
+				}
+				objs = append(objs, o)
+			}
+			objs = append(objs, Obj{Sub: 5 + v, Name: hx("recent-a"), Age: day, Kind: "F", Data: "recent"})
+			root := ""
+			if v == 2 {
+				root = []string{"space", "symlink", "glob-class", "printf"}[ki]
+			}
+			out = append(out, &Scenario{Root: root, Frac: int64(ki*3 + v), Rec: RecSpec{Kind: "none"}, Objs: objs, Events: []Event{{Op: "trim"}}})
+		}
+	}
+	return out
 }
 
 // handScenarios are the hand-written histories: the defects found with this check and the
